@@ -16,8 +16,9 @@ this reading is adopted here.
 import itertools
 
 NAME = "nurikabe"
-STATUS = "model+differential"
-THEOREMS = []
+STATUS = "theorem"
+THEOREMS = ["Cspuz.C11.Nurikabe.program_iff_rules", "Cspuz.C11.Nurikabe.total", "Cspuz.C11.Nurikabe.labels_iff_rules"]
+LEAN_FILE = "C11_Nurikabe"
 LEAN_CMD = "puz_nurikabe"
 
 _SHAPES = [(1, 1), (1, 2), (1, 3), (1, 4), (1, 5), (2, 1), (3, 1), (4, 1), (5, 1), (2, 2), (2, 3), (3, 2), (2, 4), (4, 2),
